@@ -13,7 +13,7 @@ CHECKS = {
             "against the abstract layered-keymap model P_C04 for all histories within the instance bounds; every model "
             "transition is replayed on the real code (edge cover, zero drift required for the claim); P_C04's parameters come from the written "
             "description, not from the parser; the family includes two keys holding one layer, keys outside defsrc with "
-            "process-/block-unmapped-keys, multis with several transparent items (direct and through aliases) and every mix of "
+            "process-/block-unmapped-keys, multis with several transparent items (direct and through aliases), use-defsrc under delegate-to-first-layer and every mix of "
             "deflayer / deflayermap spellings of the same layers; random histories beyond the bounds are recorded "
             "from the real code and validated by TLC against P_C04 (which stops judging once 32 events are pending, as the statement does).",
             "5 C04", TECH, BOUNDS),
@@ -41,7 +41,7 @@ CHECKS = {
             "chords v1, macros and their cancel forms, fork/switch, overrides, balanced virtual keys, hold-for-duration, on-idle, mouse "
             "buttons, release-key/layer, rpt, caps-word; recorded only: chords v2 overlap, dynamic macros cut off by the size limit); every model transition is replayed on the real code; model counterexamples, burst scripts "
             "with the real capacities (queue wrap, >64 states, >8 tap-holds, >16 one-shots, >4 macros), hand-written configurations of "
-            "the features outside L1 and random latch-free configurations over the whole action grammar (cfggen) with random consistent "
+            "the features outside L1, every custom action kind next to a mouse button in one multi, and random latch-free configurations over the whole action grammar (cfggen) with random consistent "
             "histories + Bound quiet ticks are recorded from the code and validated by TLC against P_C01.",
             "5 C01", TECH,
             BOUNDS + "; stacked one-shots <= 3 and overlapping macros <= 2 in the exhaustive instances; chords v2, defseq modes, zippychord, "
@@ -107,7 +107,7 @@ CHECKS = {
             "undefined sets decompose into the greedy largest-prefix sub-chords in press order) per chord table for every schedule within "
             "the bounds; every model transition is replayed on the real code; a TLC-enumerated schedule family (spec/Sched_C09.tla: every "
             "key subset x press permutation x gaps {0,T-1,T,T+1} x release permutation x foreign key at every position x held layer, 2-5 "
-            "keys; capacity tables with 17 supersets of one chord) and random episodes are recorded from the code and validated by TLC against P_C09.",
+            "keys; capacity tables with 17 supersets of one chord; a layer held by a chord's multi action probed by a later key) and random episodes are recorded from the code and validated by TLC against P_C09.",
             "5 C09", TECH, BOUNDS + "; v2 tables with a 3rd/4th key depth-bounded (15-25 steps); v2 undefined sets: only the accounting is "
             "claimed; chord actions that are tap-hold / one-shot / macros and (include ...) chord files not covered"),
     "C10": ("translation_validation",
@@ -128,7 +128,7 @@ CHECKS = {
             "str_to_oscode; every name observed through the real parser in 18 configuration positions under no / redefining / new "
             "deflocalkeys blocks): equal code spaces, round trips, a name's code a function of (name, block) only, reserved no-op "
             "codes. Every code is pressed, repeated and released through the real stepper under identity configurations, and a nop key "
-            "is sent down every output path (macro, tap-hold, one-shot, chords, overrides, sequences, dynamic macro, zippy ...); the "
+            "is sent down every output path (macro, tap-hold, one-shot, chords, overrides, sequences, dynamic macro, zippy ...), identity keys are held across a layer change with OS repeats; the "
             "traces are validated by TLC against P_C11; "
             "random defsrc / deflayermap / process-unmapped-keys lists: the real parser's mapped_keys is compared by TLC with "
             "P_C11.Intercept computed from the text, and across reload scripts (successful, failing late, not parsing, missing) the "
@@ -164,14 +164,14 @@ CHECKS = {
             "never a chord's modifier instead of its last-listed key) for every schedule within the instance bounds with an OS repeat "
             "of any held key injected in every state, per key-producing action form nested to depth 2 on 1-3 layers; the parser's table "
             "is compared with the specified collection; edge-cover replay binds L1 to the code; directed and random histories, also on "
-            "sequence-mode (defcfg default and explicit leader modes), no-op key, chords-v2 and override configurations outside L1, are "
+            "sequence-mode (defcfg default and explicit leader modes), no-op key, unmod on held / switched layers, chords-v2 and override configurations outside L1, are "
             "recorded from the code and validated by TLC against P_C14.",
             "5 C14", TECH, BOUNDS + "; sequence modes and chords v2 only through recorded traces; completeness claimed only where attribution is unambiguous"),
     "C18": ("model_checking",
             "TLC checks L1 (Kanata.tla FakeKeyOp / CustomPress fakekey, fakekey_idle, fakekey_hold / IdleFire / HeldVkeys; Layout.tla "
             "SeqCustomPending/Active) against the virtual-key reference P_C18 (want[v] driven by press/release/tap/toggle in issue order "
             "whatever the trigger; one event per tick; hold-for-duration released exactly D ticks after the most recent activation, "
-            "re-arming only extends; on-idle fires once, on the first tick with D idle tick-ends behind it) for every interleaving of "
+            "re-arming only extends; every armed on-idle entry fires once, on the first tick with D idle tick-ends behind it) for every interleaving of "
             "key events, direct handle_fakekey_action calls (the TCP path after name lookup) and ticks within the instance bounds; every "
             "model transition is replayed on the real code; model witnesses, random operation histories, trigger-equivalence histories "
             "(key / macro item / direct) and defseq-termination histories are recorded from the code and validated by TLC against P_C18.",
@@ -190,7 +190,7 @@ CHECKS = {
             "instance of the loaded file fed the same inputs - presses, releases and OS repeats - since the reload, compared from the first "
             "common idle point) on the real "
             "code; TLC validates the recorded lane triples against P_C15 (F1 failed reload = no request, F2 when/how a successful "
-            "reload is applied + notifications + equals a restart, F3 lrld/next/prev/num index selection).",
+            "reload is applied + notifications + equals a restart, F3 lrld/next/prev/num index selection in both documented spellings over three files).",
             "5 C15", "TLC exploration of the reload model + edge-cover replay with fault injection + TLC validation of recorded relational lanes",
             "2-3 keys + request keys, <=2 pending events, <=6 inputs before / <=4 after an attempt, <=2-3 attempts per history; 1 ms per "
             "loop iteration via kanata_verif hooks; xset made unavailable; no dynamic-macro recording, clipboard slots, lrld-file; "
@@ -209,7 +209,7 @@ CHECKS = {
             "TLC checks L1 against the tap-dance monitor P_C17 (group-wise accounting of every typed tap: no tap swallowed, no "
             "action for taps not typed; in the sharp zone the exact resolution tick and the exact action for the number of taps "
             "counted, window restart, interruption by another key, list exhaustion, action held until the final release; eager "
-            "form: each tap performs its own action at once, past the end of the list a new dance starts) for every schedule within the "
+            "form: each tap performs its own action at once, past the end of the list a new dance starts; list entries that are macros, XX, release-key, multi) for every schedule within the "
             "instance bounds with one or two tap-dance keys (eager+eager, eager+lazy, lazy+lazy), eager successions to list length + 2; "
             "edge-cover replay binds L1 to the code; model-level counterexamples, TLC-enumerated class witnesses and random schedules are "
             "recorded from the code and validated by TLC against P_C17.",
@@ -222,7 +222,7 @@ CHECKS = {
             "the state at play time; nothing left down when idle; no self-recursion; stops by itself above 2*max+1 stored events) for every "
             "typing history within the bounds of 8 (quick) / 11 (thorough) instances; every model transition is replayed on the real code "
             "(stored macros, record/replay flags, executed tick count compared; zero drift required); scenario scripts enumerated beyond the "
-            "bounds (all bodies <=3/4 events x keys held across the start x five ways of stopping; nesting, recursion, re-recording, play "
+            "bounds (all bodies <=3/4 events x keys held across the start x five ways of stopping; nesting, recursion, re-recording incl. recordings that end up empty, play "
             "while recording, size limit) and random sessions are recorded from the code and validated by TLC against P_C19; model mutants "
             "must be rejected (thorough).",
             "5 C19", TECH,
@@ -236,7 +236,7 @@ CHECKS = {
             "real parser) composed with the text-buffer reference model P_C20 (expected text defined on the history: literal typing, base ++ "
             "expansion (++ smart space), longer chord supersedes, follow-up replaces antecedent, modifiers restored) for every physically "
             "consistent history per dictionary instance (extension, overlap, shared prefixes, follow-ups, upper/lower case, shifts, altgr, "
-            "smart space add/full, space key); every model transition is replayed on the real code; model-level rejections, drifting edges, "
+            "smart space add/full with default and custom punctuation lists, space key); every model transition is replayed on the real code; model-level rejections, drifting edges, "
             "every entry x permutation x gap x shift x 1-2 further keys, non-default deadlines probed on both sides, and random typing over random dictionaries are recorded from the "
             "real code and validated by TLC against P_C20.",
             "5 C20", TECH,
